@@ -65,7 +65,13 @@ theorem preamble_render (doc : Bytes) (hH : doc.length ≤ HALF) (c0 : UInt8) (d
       simp only
       obtain ⟨hlt, hget⟩ := getElem_of_drop hS2 (i := 1) (b := c0) (by simp)
       rw [rd_ok hlt]
-      simp only [hget, hc0.1, hc0.2, or_self, if_false]
+      have hm : Gen.XmlConsts.preambleMarkers.contains c0 = false := by
+        cases hc : Gen.XmlConsts.preambleMarkers.contains c0 with
+        | false => rfl
+        | true => rcases (preambleMarkers_iff c0).mp hc with h | h
+                  · exact absurd h hc0.1
+                  · exact absurd h hc0.2
+      simp only [hget, hm, Bool.false_eq_true, if_false]
       simp only [curAt]
       congr 3; omega
   | cons it items ih =>
@@ -110,7 +116,8 @@ theorem preamble_render (doc : Bytes) (hH : doc.length ≤ HALF) (c0 : UInt8) (d
         simp only [List.length_cons]
         obtain ⟨hlt, hget⟩ := getElem_of_drop hS2 (i := 1) (b := q) (by simp)
         rw [rd_ok hlt]
-        simp only [hget, hq, if_true]
+        have hm : Gen.XmlConsts.preambleMarkers.contains q = true := (preambleMarkers_iff q).mpr hq
+        simp only [hget, hm, if_true]
         have hadv2 : advance (⟨cur.off + junk.length, cur.len - junk.length⟩ : Cur) (body.length + 1 + 1 + 1) =
             ⟨cur.off + junk.length + (body.length + 1 + 1 + 1), cur.len - junk.length - (body.length + 1 + 1 + 1)⟩ :=
           advance_eq (by simp only; omega) (by simp only; omega)
